@@ -129,9 +129,9 @@ ResultFor(r) ==
          \* a stop requested from outside may win the race against a failure
          \cup (IF sigint \/ shut # "none" \/ Kbd # {} THEN {[kind |-> "returned", cause |-> "-"]} ELSE {})
 \* accept() ends only after every coroutine payload that was started has finished its cleanup
-AcceptRet(r, res) ==
+AcceptRetW(r, res, joined) ==
     /\ phase[r] \in {"running", "closing", "closed"} /\ res \in ResultFor(r)
-    /\ (r = 1 => Triggered /\ \A p \in Payloads : Settled(p))
+    /\ (r = 1 => Triggered /\ (joined => \A p \in Payloads : Settled(p)))
     \* (a failure / interrupt normally goes through CloseBegin .. CloseEnd; one that arrives
     \*  after a shutdown() has already stopped the runners does not)
     /\ (r = 1 /\ phase[r] = "running") => (shut # "none" \/ (Failed = {} /\ Kbd = {} /\ ~sigint))
@@ -140,6 +140,12 @@ AcceptRet(r, res) ==
     /\ result' = [result EXCEPT ![r] = res]
     /\ guard' = 0
     /\ UNCHANGED <<pst, starts, endhow, cleanleft, adoptret, sigint, shut, xst, h>>
+AcceptRet(r, res) == AcceptRetW(r, res, TRUE)
+\* NOT part of Next - the known deviation F12, named so that the trace module can tell it from
+\* an unexplained step: a payload raising SystemExit makes asyncio abort the closing of its
+\* loop, accept() raises without the trio thread having been joined (the trio payloads'
+\* cleanup is still running).  CleanupBeforeEnd / NoStepAfterEnd fail on such traces (C02).
+AcceptAbort(r, res) == res.kind = "raised" /\ AcceptRetW(r, res, FALSE)
 
 SigintSend == /\ AllowSigint /\ phase[1] = "running" /\ ~sigint
               /\ sigint' = TRUE
